@@ -47,8 +47,8 @@ REAL_VS_STUB = {
              "scheduled points; reference list model in plain Python"],
 }
 TIERS = {
-    "quick": {"runs": 60000, "budget_s": 50, "chunk": 250, "det_pairs": 64, "fresh": 6},
-    "thorough": {"runs": 400000, "budget_s": 900, "chunk": 300, "det_pairs": 512, "fresh": 32},
+    "quick": {"runs": 68000, "budget_s": 55, "chunk": 250, "det_pairs": 64, "fresh": 6},
+    "thorough": {"runs": 560000, "budget_s": 900, "chunk": 400, "det_pairs": 512, "fresh": 32},
 }
 
 SHARING_OPS = {"em_new", "em_append", "em_extend", "em_copy", "em_slice", "em_add", "em_index",
@@ -74,7 +74,58 @@ def _rand_slice(rng):
     return [part(), part(), step]
 
 
+# ---- exhaustive part: every sequence up to a small length over a small alphabet
+EXH_WARMUP = [
+    {"op": "new_droplet", "cls": "DiffuseDroplet", "position": [1.0, 2.0], "radius": 2.0,
+     "interface_width": 1.0},
+    {"op": "new_droplet", "cls": "DiffuseDroplet", "position": [9.0, -3.0], "radius": 0.5,
+     "interface_width": None},
+    {"op": "em_new", "src": [0, 1], "copy": True, "via": "list", "force": False},
+    {"op": "etc_new", "ems": [0], "times": "given", "t0": 0.5, "dt": 1},
+    {"op": "tr_new", "ds": [0, 1], "times": "given", "t0": 1.5, "dt": 2.5},
+]
+EXH_ALPHABET = [
+    {"op": "em_append", "em": 0, "d": 0, "copy": True, "force": False},
+    {"op": "em_append", "em": 0, "d": -1, "copy": False, "force": False},
+    {"op": "em_copy", "em": -1, "min_radius": None},
+    {"op": "em_slice", "c": 0, "slice": [None, None, -1]},
+    {"op": "em_add", "a": 0, "b": -1},
+    {"op": "em_index", "c": -1, "k": 0},
+    {"op": "em_link", "em": 0},
+    {"op": "mutate", "d": -1, "field": "radius", "value": 3.5, "axis": 0},
+    {"op": "mutate", "d": 0, "field": "position", "value": 7.25, "axis": 1},
+    {"op": "write_array", "arr": -1, "row": 0, "field": "radius", "value": 1.25, "axis": 0},
+    {"op": "em_remove_small", "em": 0, "min_radius": 1.0, "member": 0},
+    {"op": "em_clear", "em": -1},
+    {"op": "merge", "a": 0, "b": 1, "inplace": True},
+    {"op": "etc_append", "etc": 0, "em": -1, "time": None, "copy": True, "plain_list": False},
+    {"op": "etc_index", "c": 0, "k": -1},
+    {"op": "etc_slice", "c": 0, "slice": [None, None, 2]},
+    {"op": "tr_append", "tr": -1, "d": -1, "time": None},
+    {"op": "tr_slice", "c": 0, "slice": [None, None, -1]},
+    {"op": "tr_index", "c": -1, "k": -1},
+    {"op": "em_extend", "em": -1, "ds": [0, 1], "copy": True, "force": False, "gen": True,
+     "from_em": False},
+]
+EXH_LENGTH = {"quick": 3, "thorough": 4}
+EXH_TAIL = [{"op": "query", "kind": "stats", "c": 0, "c2": 0, "perm_seed": 1},
+            {"op": "query", "kind": "width", "c": -1, "c2": 0, "perm_seed": 1},
+            {"op": "query", "kind": "track", "c": -1, "c2": 0, "perm_seed": 1},
+            {"op": "query", "kind": "etc", "c": 0, "c2": 0, "perm_seed": 1}]
+
+
+def exhaustive_size(tier: str) -> int:
+    return len(EXH_ALPHABET) ** EXH_LENGTH[tier]
+
+
 def generate(streams: Streams, tier: str, index: int) -> dict:
+    if index < exhaustive_size(tier):
+        ops, k = [], index
+        for _ in range(EXH_LENGTH[tier]):
+            ops.append(dict(EXH_ALPHABET[k % len(EXH_ALPHABET)]))
+            k //= len(EXH_ALPHABET)
+        return {"ops": [dict(o) for o in EXH_WARMUP] + ops + [dict(o) for o in EXH_TAIL],
+                "exhaustive": True}
     rng = streams["workload"]
     n_ops = rng.randint(5, 40 if tier == "quick" else 60)
     weights = {k: rng.choice([0, 1, 1, 2, 3]) for k in OP_KINDS}
@@ -1430,6 +1481,8 @@ def execute(case: dict) -> Outcome:
     cnt = Counter()
     M = Machine(log, cnt)
     executed = []
+    if case.get("exhaustive"):
+        cnt.inc("exhaustive_sequences")
     for step, op in enumerate(case["ops"]):
         k = op["op"]
         skip = run_op(M, step, op)
